@@ -166,6 +166,17 @@ pub fn core_parts(rep: &mut Report, props: &[&str], checks: u32) {
             s.fault = packet_faults(3, if thorough { 5 } else { 4 }, CLASS_INPUT | CLASS_INPUT_ACK, PACKET_FATES.to_vec(), 1);
             scns.push(s);
         }
+        // games that save their states without a checksum (the cell contract does not depend on
+        // checksums): the same window on the full-saving configurations
+        for g in quick_grid().iter().filter(|g| !g.sparse) {
+            let mut s = gp_scn("core-D-nochecksum", g);
+            s.no_checksum = (0..s.peers.len()).collect();
+            s.horizon = 14;
+            s.probe = 40;
+            s.checks = checks;
+            s.fault = packet_faults(2, 4, CLASS_INPUT | CLASS_INPUT_ACK, vec![Fate::Drop, Fate::Delay(2), Fate::Delay(3)], 1);
+            scns.push(s);
+        }
         // the same deviations from the very first round (before any remote input has arrived)
         for g in quick_grid().iter() {
             let mut s = gp_scn("core-D0", g);
@@ -470,6 +481,27 @@ fn stall_parts(rep: &mut Report, props: &[&str], checks: u32, windows: &[usize],
                             len += if thin && len > 2 * w as i32 + 6 { 7 } else { 1 };
                         }
                     }
+                }
+            }
+        }
+    }
+    // lockstep sessions with desync detection on (nothing may be saved in lockstep, whatever the
+    // checksum interval asks for), long enough to pass several reporting frames
+    if windows.contains(&0) {
+        for interval in [1u32, 3, 10] {
+            for d in [0usize, 2] {
+                for t in ["1+1", "1+1+1"] {
+                    let mut s = base_scn("stall-lockstep-desync", t, 0, d, false, Pred::RepeatLast, Program::Changing, 1);
+                    for p in s.peers.iter_mut() {
+                        p.desync = interval;
+                    }
+                    let (a, b) = (s.peers[0].addr, s.peers[1].addr);
+                    s.outages.push(Outage { from: b, to: a, start: 14, len: 9, classes: CLASS_INPUT });
+                    s.name = format!("{} desync-interval={interval}", s.name);
+                    s.horizon = 30;
+                    s.probe = 40;
+                    s.checks = checks;
+                    scns.push(s);
                 }
             }
         }
